@@ -1,0 +1,31 @@
+//go:build verif
+// +build verif
+
+package termincommittee
+
+import (
+	"github.com/orbs-network/lean-helix-go/services/interfaces"
+	"github.com/orbs-network/lean-helix-go/spec/types/go/primitives"
+)
+
+// Verification hooks (build tag "verif"): read-only access for the /verif correspondence harness.
+
+// VerifLeaderOf exposes the package-private leader function.
+func VerifLeaderOf(view primitives.View, committeeMembers []interfaces.CommitteeMember) primitives.MemberId {
+	return calcLeaderOfViewAndCommittee(view, committeeMembers)
+}
+
+// VerifPreparedView reports the node's prepared view, if any.
+func (tic *TermInCommittee) VerifPreparedView() (primitives.View, bool) {
+	return tic.getPreparedLocally()
+}
+
+// VerifCommitted reports whether the term has committed its block.
+func (tic *TermInCommittee) VerifCommitted() bool {
+	return tic.committedBlock != nil
+}
+
+// VerifLatestViewProcessed reports latestViewThatProcessedVCMOrNVM.
+func (tic *TermInCommittee) VerifLatestViewProcessed() primitives.View {
+	return tic.latestViewThatProcessedVCMOrNVM
+}
